@@ -147,6 +147,7 @@ def cmd_run(a):
             print(json.dumps(r))
     finally:
         sh(["git", "-C", REPO, "checkout", "--", "."])
+    m = load_meta(d)  # reload: a confirmation may have been recorded meanwhile
     runs = [r for r in m.get("runs", []) if not any(r["check"] == n["check"] and r["tier"] == n["tier"] and r.get("seed") == n.get("seed") for n in results)]
     m["runs"] = runs + results
     save_meta(d, m)
@@ -216,6 +217,7 @@ def cmd_try(a):
     finally:
         sh(["git", "-C", REPO, "worktree", "remove", "--force", wt])
         sh(["git", "-C", REPO, "worktree", "prune"])
+    m = load_meta(d)  # reload: a confirmation may have been recorded meanwhile
     runs = [r for r in m.get("runs", []) if not any(r["check"] == n["check"] and r["tier"] == n["tier"] and r.get("seed") == n.get("seed") for n in results)]
     m["runs"] = runs + results
     save_meta(d, m)
